@@ -36,10 +36,17 @@ func init() { register("C18", runC18) }
 
 // ---------- the config type ----------
 
+// (leaves followed by a nested struct: a source that sets only Host must not lose it because Pool is unset)
+type c18Pool struct {
+	Size int  `dials:"zsize"`
+	Warm bool `dials:"zwarm"`
+}
+
 type c18DB struct {
-	Host string `dials:"zhost"`
-	Port int    `dials:"zport"`
-	TLS  bool   `dials:"ztls"`
+	Host string  `dials:"zhost"`
+	Port int     `dials:"zport"`
+	TLS  bool    `dials:"ztls"`
+	Pool c18Pool `dials:"zpool"`
 }
 
 type c18Cfg struct {
@@ -169,6 +176,8 @@ var c18Leaves = []c18Leaf{
 	}},
 	{[]string{"zneed"}, "string", func(c *c18Cfg, v any) { c.Need = v.(string) }},
 	{[]string{"zpath"}, "string", func(c *c18Cfg, v any) { c.Path = v.(string) }},
+	{[]string{"zdb", "zpool", "zsize"}, "int", func(c *c18Cfg, v any) { c.DB.Pool.Size = v.(int) }},
+	{[]string{"zdb", "zpool", "zwarm"}, "bool", func(c *c18Cfg, v any) { c.DB.Pool.Warm = v.(bool) }},
 }
 
 const (
@@ -442,21 +451,24 @@ func c18Render(doc map[string]any, format string) string {
 			return "{}\n"
 		}
 	case "toml":
-		var tables []string
-		for _, k := range c18SortedKeys(doc) {
-			if _, ok := c18AsTree(doc[k]); ok {
-				tables = append(tables, k)
-				continue
+		// scalars of a table first, then its sub-tables under their dotted names
+		var w func(m map[string]any, prefix string)
+		w = func(m map[string]any, prefix string) {
+			var tables []string
+			for _, k := range c18SortedKeys(m) {
+				if _, ok := c18AsTree(m[k]); ok {
+					tables = append(tables, k)
+					continue
+				}
+				fmt.Fprintf(&b, "%s = %s\n", k, c18Scalar(m[k], format))
 			}
-			fmt.Fprintf(&b, "%s = %s\n", k, c18Scalar(doc[k], format))
-		}
-		for _, k := range tables {
-			t, _ := c18AsTree(doc[k])
-			fmt.Fprintf(&b, "\n[%s]\n", k)
-			for _, kk := range c18SortedKeys(t) {
-				fmt.Fprintf(&b, "%s = %s\n", kk, c18Scalar(t[kk], format))
+			for _, k := range tables {
+				t, _ := c18AsTree(m[k])
+				fmt.Fprintf(&b, "\n[%s%s]\n", prefix, k)
+				w(t, prefix+k+".")
 			}
 		}
+		w(doc, "")
 	case "cue":
 		var w func(m map[string]any, ind string)
 		w = func(m map[string]any, ind string) {
